@@ -3,8 +3,8 @@ package main
 import (
 	"fmt"
 	"go/constant"
-	"go/token"
 	"go/types"
+	"sort"
 
 	"golang.org/x/tools/go/ssa"
 )
@@ -12,10 +12,10 @@ import (
 func init() {
 	register(&propDef{
 		id: "C07", run: runC07, minOblig: 10,
-		explanation: "Decides the 'rejects corrupt states' clause of C07: in every UnmarshalBinary of blake2b, blake2s and sha3 (legacy Keccak), each receiver field that is restored from a single input byte and later bounds a slice/array access (size, offset; rate, n, state) is range-checked — for every one of the 256 possible byte values the checker partially evaluates the function's branch conditions (fixed-width Go semantics) and requires that the nil-error return is reachable exactly for the values inside the valid range taken from the package's own constants (1..Size, 0..BlockSize, n<=rate, state in {absorbing,squeezing}, rate equal to the receiver's). Also: every int-typed receiver field stored from input bytes is in this table (a new unchecked field is reported), and the total-length test guards all constant-index reads. NOT decided: that a restored state continues to hash identically (value equality).",
-		assumptions: []string{"int is 64-bit", "the restored byte reaches the field only through the conversions seen in the SSA (checked: store value derives from exactly one input-byte load)"},
+		explanation: "Decides the 'rejects corrupt states' clause of C07 and the scalar part of the round trip: every UnmarshalBinary of blake2b, blake2s and sha3 (legacy Keccak) is INTERPRETED (flow-sensitive abstract interpretation of the SSA, slices by length and position in the input, same-package helpers interpreted in place, fixed-width Go arithmetic, nothing executed) on concrete byte strings in the marshaled wire format (magic | h | c | size | block | offset, resp. magic | rate | a | n | direction). (length) for every input length 0..marshaledSize+16 (and two larger ones) the nil error is returned exactly for marshaledSize and no index or slice expression leaves the input; (magic) every corrupted identifier byte, and for Keccak a receiver of another function family, is rejected; (range) for each input byte that is restored into a receiver field that later bounds a slice/array access (size, offset; n, state) or selects the function (rate), all 256 values are interpreted and the nil error is returned exactly for the values inside the valid range (1..Size, 0..BlockSize taken from the package's exported constants; n <= rate, direction absorbing|squeezing, rate equal to the receiver's, for both Keccak rates), and on acceptance the field holds exactly that byte; (untabled field) no other integer field of the receiver is stored with a value that depends on the input. The verdict does not depend on how the function is factored (helpers, constant offsets vs re-slicing, switch vs if, encoding/binary vs hand-written reads). NOT decided: that the array-valued parts (h, c, block, a) are restored identically, and the MarshalBinary side of the round trip.",
+		assumptions: []string{"int is 64-bit", "the marshaled layout is the wire format of the released package (positions of size/offset/rate/n/direction bytes)", "package-level error variables are non-nil"},
 	})
-	tech("C07", "finite-domain partial evaluation of guard conditions over all 256 byte values + CFG reachability of the accepting return; field-store table")
+	tech("C07", "flow-sensitive abstract interpretation (pathWalker, helpers in place) of UnmarshalBinary on concrete inputs: all lengths, all 256 values of every range-relevant byte, corrupted magic; comparison of accept/reject and of the restored scalar fields with the format specification")
 }
 
 func pkgConstInt(c *Ctx, pkg, name string) (int64, bool) {
@@ -31,184 +31,334 @@ func pkgConstInt(c *Ctx, pkg, name string) (int64, bool) {
 	return n, ok
 }
 
-// byteRoot finds the single load of an input byte that v is converted from.
-func byteRoot(v ssa.Value) *ssa.UnOp {
-	for i := 0; i < 8; i++ {
-		switch x := v.(type) {
-		case *ssa.Convert:
-			v = x.X
-		case *ssa.ChangeType:
-			v = x.X
-		case *ssa.UnOp:
-			if x.Op == token.MUL {
-				if _, ok := x.X.(*ssa.IndexAddr); ok {
-					if b, ok := x.Type().Underlying().(*types.Basic); ok && b.Kind() == types.Uint8 {
-						return x
-					}
-				}
-			}
-			return nil
-		default:
-			return nil
-		}
-	}
-	return nil
+// c07Byte: one input byte with a range specification.
+type c07Byte struct {
+	pos   int64
+	what  string // name used in messages
+	field string // receiver field that must hold the byte on acceptance ("" = only compared)
+	valid func(d int64, cfg map[string]int64) bool
+	desc  string
+	risk  string // what accepting an invalid value leads to
+	// two valid values used while another byte is swept
+	lo, hi func(cfg map[string]int64) int64
+}
+
+// c07Format: the marshaled wire format of one hash and the receiver
+// configurations (fields read, not written, by UnmarshalBinary).
+type c07Format struct {
+	pkg, fn, typ string
+	magic        string
+	size         int64
+	bytes        []c07Byte
+	cfgs         []map[string]int64 // receivers that accept a well-formed state
+	badCfgs      []map[string]int64 // receivers that must reject every state
+}
+
+func c07Const(n int64) func(map[string]int64) int64 {
+	return func(map[string]int64) int64 { return n }
 }
 
 func runC07(c *Ctx) {
-	for _, pk := range []string{"blake2b", "blake2s"} {
-		fn := c.fn(pk, "(*digest).UnmarshalBinary")
+	for _, pk := range []struct {
+		name  string
+		magic string
+		word  int64
+	}{{"blake2b", "b2b", 8}, {"blake2s", "b2s", 4}} {
+		fn := c.fn(pk.name, "(*digest).UnmarshalBinary")
 		if fn == nil {
 			continue
 		}
-		size, ok1 := pkgConstInt(c, pk, "Size")
-		bs, ok2 := pkgConstInt(c, pk, "BlockSize")
+		size, ok1 := pkgConstInt(c, pk.name, "Size")
+		bs, ok2 := pkgConstInt(c, pk.name, "BlockSize")
 		if !ok1 || !ok2 {
-			c.fail("anchor", pk+".Size/BlockSize", fn, "package constants not found")
+			c.fail("anchor", pk.name+".Size/BlockSize", fn, "package constants not found")
 			continue
 		}
-		specs := []fieldSpec{
-			{"size", func(d int64) bool { return d >= 1 && d <= size }, fmt.Sprintf("1..%d", size)},
-			{"offset", func(d int64) bool { return d >= 0 && d <= bs }, fmt.Sprintf("0..%d", bs)},
-		}
-		c07Fields(c, pk, fn, "digest", specs, nil)
+		// magic | h[8] | c[2] | size | block | offset
+		sizePos := int64(len(pk.magic)) + 8*pk.word + 2*pk.word
+		offPos := sizePos + 1 + bs
+		c07Check(c, fn, &c07Format{
+			pkg: pk.name, fn: "(*digest).UnmarshalBinary", typ: "digest", magic: pk.magic, size: offPos + 1,
+			bytes: []c07Byte{
+				{pos: sizePos, what: "size", field: "size", desc: fmt.Sprintf("1..%d", size), risk: "Sum slices the hash beyond its array or returns an empty digest",
+					valid: func(d int64, _ map[string]int64) bool { return d >= 1 && d <= size },
+					lo:    c07Const(1), hi: c07Const(size)},
+				{pos: offPos, what: "offset", field: "offset", desc: fmt.Sprintf("0..%d", bs), risk: "Write/Sum slice the block buffer out of range (panic)",
+					valid: func(d int64, _ map[string]int64) bool { return d >= 0 && d <= bs },
+					lo:    c07Const(0), hi: c07Const(bs)},
+			},
+			cfgs: []map[string]int64{{}},
+		})
 	}
-	// sha3 legacy
+	// sha3 legacy Keccak: magic | rate | a[200] | n | direction
 	if fn := c.fn("sha3", "(*state).UnmarshalBinary"); fn != nil {
-		const rate = 136
-		abs, ok1 := pkgConstInt(c, "sha3", "spongeAbsorbing")
-		sq, ok2 := pkgConstInt(c, "sha3", "spongeSqueezing")
-		if !ok1 || !ok2 {
-			c.fail("anchor", "sha3.spongeAbsorbing/spongeSqueezing", fn, "constants not found")
-		} else {
-			specs := []fieldSpec{
-				{"n", func(d int64) bool { return d <= rate }, "0..d.rate"},
-				{"state", func(d int64) bool { return d == abs || d == sq }, "absorbing|squeezing"},
+		const (
+			magic      = "sha\x0b"
+			keccakDS   = 0x01 // domain separation byte of the legacy Keccak functions
+			sha3DS     = 0x06
+			shakeDS    = 0x1f
+			absorbing  = 0
+			squeezing  = 1
+			stateBytes = 200
+		)
+		ratePos := int64(len(magic))
+		nPos := ratePos + 1 + stateBytes
+		c07Check(c, fn, &c07Format{
+			pkg: "sha3", fn: "(*state).UnmarshalBinary", typ: "state", magic: magic, size: nPos + 2,
+			bytes: []c07Byte{
+				{pos: ratePos, what: "rate byte", field: "", desc: "equal to the receiver's rate", risk: "the state of a hash with another rate (another function) is restored",
+					valid: func(d int64, cfg map[string]int64) bool { return d == cfg["rate"] },
+					lo:    func(cfg map[string]int64) int64 { return cfg["rate"] }, hi: func(cfg map[string]int64) int64 { return cfg["rate"] }},
+				{pos: nPos, what: "n", field: "n", desc: "0..d.rate", risk: "Write/Sum slice the sponge buffer a[n:rate] out of range (panic)",
+					valid: func(d int64, cfg map[string]int64) bool { return d <= cfg["rate"] },
+					lo:    c07Const(0), hi: func(cfg map[string]int64) int64 { return cfg["rate"] }},
+				{pos: nPos + 1, what: "state", field: "state", desc: "absorbing|squeezing", risk: "the sponge is in no defined direction",
+					valid: func(d int64, _ map[string]int64) bool { return d == absorbing || d == squeezing },
+					lo:    c07Const(absorbing), hi: c07Const(squeezing)},
+			},
+			// Keccak-256 (rate 136) and Keccak-512 (rate 72)
+			cfgs:    []map[string]int64{{"rate": 136, "dsbyte": keccakDS}, {"rate": 72, "dsbyte": keccakDS}},
+			badCfgs: []map[string]int64{{"rate": 136, "dsbyte": sha3DS}, {"rate": 136, "dsbyte": shakeDS}},
+		})
+	}
+}
+
+// input builds a marshaled state of length n: the magic, every specified byte
+// set to vals[pos] (default: its low valid value), everything else filler.
+func (f *c07Format) input(n int64, filler byte, cfg map[string]int64, high bool, vals map[int64]int64) []byte {
+	full := make([]byte, max(n, f.size))
+	for i := range full {
+		full[i] = filler
+	}
+	copy(full, f.magic)
+	for _, b := range f.bytes {
+		v := b.lo(cfg)
+		if high {
+			v = b.hi(cfg)
+		}
+		if x, ok := vals[b.pos]; ok {
+			v = x
+		}
+		full[b.pos] = byte(v)
+	}
+	return full[:n]
+}
+
+func c07Check(c *Ctx, fn *ssa.Function, f *c07Format) {
+	name := f.pkg + "." + fnName(fn)
+	if len(fn.Params) != 2 || len(fn.Blocks) == 0 {
+		c.fail("anchor", name, fn, "UnmarshalBinary(b []byte) with a body expected (rule anchor lost)")
+		return
+	}
+	cfgStr := func(cfg map[string]int64) string {
+		if len(cfg) == 0 {
+			return ""
+		}
+		var ks []string
+		for k := range cfg {
+			ks = append(ks, k)
+		}
+		sort.Strings(ks)
+		s := " (receiver"
+		for _, k := range ks {
+			s += fmt.Sprintf(" %s=%d", k, cfg[k])
+		}
+		return s + ")"
+	}
+	// abnormal reports what is wrong with a run irrespective of accept/reject.
+	abnormal := func(r c07Run) string {
+		switch {
+		case r.end == "undecided":
+			return "the interpretation is undecided: " + r.why
+		case r.end == "panic":
+			return "UnmarshalBinary panics"
+		case r.oob:
+			at := ""
+			if r.oobAt != nil {
+				at = " at " + c.posStr(r.oobAt.Pos())
 			}
-			c07Fields(c, "sha3", fn, "state", specs, func(e *penv) { e.bindPath(fn, "d.rate", rate) })
-			// the rate byte itself: compared with d.rate, accept iff equal
-			var rateRoot *ssa.UnOp
-			allInstrs(fn, func(in ssa.Instruction) {
-				if bo, ok := in.(*ssa.BinOp); ok && (bo.Op == token.NEQ || bo.Op == token.EQL) {
-					if accessPath(bo.Y) == "d.rate" {
-						if r := byteRoot(bo.X); r != nil {
-							rateRoot = r
+			return "an index or slice expression leaves the input" + at
+		}
+		return ""
+	}
+
+	// ---- length ---------------------------------------------------------
+	{
+		bad, cases := "", 0
+		var at poser = fn
+		lens := []int64{f.size + 100, 2 * f.size}
+		for n := int64(0); n <= f.size+16; n++ {
+			lens = append(lens, n)
+		}
+		for _, n := range lens {
+			for _, cfg := range f.cfgs {
+				if bad != "" {
+					break
+				}
+				r := c07Interp(fn, f.typ, f.input(n, 0x5a, cfg, false, nil), cfg, f)
+				cases++
+				if a := abnormal(r); a != "" {
+					bad = fmt.Sprintf("input of length %d (marshaledSize is %d)%s: %s", n, f.size, cfgStr(cfg), a)
+				} else if r.end == "accept" && n != f.size {
+					bad = fmt.Sprintf("input of length %d (marshaledSize is %d) can reach the nil-error return", n, f.size)
+				} else if r.end != "accept" && n == f.size {
+					bad = fmt.Sprintf("a well-formed input of exactly marshaledSize (%d) bytes%s is rejected", n, cfgStr(cfg))
+				}
+				if bad != "" && r.last != nil {
+					at = r.last
+				}
+			}
+		}
+		c.check(bad == "", "C07.length", name+" length guard", at,
+			fmt.Sprintf("only len(b) == marshaledSize (%d) returns nil; no index or slice leaves the input (%d inputs interpreted)", f.size, cases), bad)
+	}
+
+	// ---- magic ----------------------------------------------------------
+	{
+		bad, cases := "", 0
+		var at poser = fn
+		try := func(in []byte, cfg map[string]int64, what string) {
+			if bad != "" {
+				return
+			}
+			r := c07Interp(fn, f.typ, in, cfg, f)
+			cases++
+			if a := abnormal(r); a != "" {
+				bad = what + cfgStr(cfg) + ": " + a
+			} else if r.end == "accept" {
+				bad = what + cfgStr(cfg) + " is accepted (nil error): a state of another hash function can be restored"
+			}
+			if bad != "" && r.last != nil {
+				at = r.last
+			}
+		}
+		for _, cfg := range f.cfgs {
+			for i := range f.magic {
+				for _, x := range []byte{0x01, 0x20, 0xff} {
+					in := f.input(f.size, 0x5a, cfg, false, nil)
+					in[i] ^= x
+					try(in, cfg, fmt.Sprintf("identifier byte %d changed from %#x to %#x", i, f.magic[i], in[i]))
+				}
+			}
+		}
+		for _, cfg := range f.badCfgs {
+			try(f.input(f.size, 0x5a, cfg, false, nil), cfg, "a well-formed state unmarshaled into a receiver of another function family")
+		}
+		c.check(bad == "", "C07.magic", name+" identifier", at,
+			fmt.Sprintf("every corrupted identifier is rejected (%d inputs interpreted)", cases), bad)
+	}
+
+	// ---- range of every specified byte, restored value ------------------
+	tabled := map[string]bool{}
+	for _, b := range f.bytes {
+		if b.field != "" {
+			tabled[b.field] = true
+		}
+	}
+	// other integer fields stored on accepting runs: field -> cfg index -> values seen
+	type seen struct {
+		vals    map[int64]bool
+		unknown bool
+	}
+	others := map[string]map[int]*seen{}
+	// Two contexts (the other specified bytes at their lowest / highest valid
+	// value, filler 0x00 / 0xff). All bytes are swept in the low context first,
+	// so that a defect is reported at the byte whose own test is wrong and not
+	// at a byte that merely had the defective one in its context.
+	bads := make([]string, len(f.bytes))
+	ats := make([]poser, len(f.bytes))
+	cases := make([]int, len(f.bytes))
+	anyBad := false
+	for _, high := range []bool{false, true} {
+		filler := byte(0x00)
+		if high {
+			filler = 0xff
+		}
+		for bi, b := range f.bytes {
+			for ci, cfg := range f.cfgs {
+				for d := int64(0); d < 256 && !anyBad; d++ {
+					in := f.input(f.size, filler, cfg, high, map[int64]int64{b.pos: d})
+					r := c07Interp(fn, f.typ, in, cfg, f)
+					cases[bi]++
+					id := fmt.Sprintf("byte value %d", d) + cfgStr(cfg)
+					valid := b.valid(d, cfg)
+					bad := ""
+					switch a := abnormal(r); {
+					case a != "":
+						bad = id + ": " + a
+					case r.end == "accept" && !valid:
+						bad = id + " is outside the valid range " + b.desc + " but the nil-error return is still reached (no rejecting comparison): " + b.risk
+					case r.end != "accept" && valid:
+						bad = id + " is valid but UnmarshalBinary returns an error (over-strict check breaks Marshal/Unmarshal transparency)"
+					case r.end == "accept" && b.field != "":
+						if v, ok := r.stores[b.field]; !ok {
+							bad = id + " is accepted but field " + b.field + " is not restored"
+						} else if !v.ok || v.n != d {
+							bad = id + " is accepted but field " + b.field + " is restored with a different value"
+							if v.ok {
+								bad += fmt.Sprintf(" (%d)", v.n)
+							}
 						}
-					} else if accessPath(bo.X) == "d.rate" {
-						if r := byteRoot(bo.Y); r != nil {
-							rateRoot = r
+					}
+					if bad != "" {
+						bads[bi], anyBad = bad, true
+						if r.last != nil {
+							ats[bi] = r.last
+						}
+					}
+					if r.end == "accept" {
+						for fld, v := range r.stores {
+							if tabled[fld] {
+								continue
+							}
+							if others[fld] == nil {
+								others[fld] = map[int]*seen{}
+							}
+							s := others[fld][ci]
+							if s == nil {
+								s = &seen{vals: map[int64]bool{}}
+								others[fld][ci] = s
+							}
+							if v.ok {
+								s.vals[v.n] = true
+							} else {
+								s.unknown = true
+							}
 						}
 					}
 				}
-			})
-			if rateRoot == nil {
-				c.fail("C07.range", "sha3.(*state).UnmarshalBinary rate byte", fn, "the marshaled rate byte is not compared with the receiver's rate")
-			} else {
-				bad := c07Sweep(fn, rateRoot, func(d int64) bool { return d == rate }, func(e *penv) {
-					e.bindPath(fn, "d.rate", rate)
-				}, nil)
-				c.check(bad == "", "C07.range", "sha3.(*state).UnmarshalBinary rate byte", rateRoot,
-					"accepted iff equal to the receiver's rate (256 values evaluated)", bad)
 			}
 		}
 	}
-}
+	for bi, b := range f.bytes {
+		construct := name + " field " + b.what
+		if b.field == "" {
+			construct = name + " " + b.what
+		}
+		var at poser = fn
+		if ats[bi] != nil {
+			at = ats[bi]
+		}
+		c.check(bads[bi] == "", "C07.range", construct, at,
+			fmt.Sprintf("nil error returned exactly for byte values %s, and the field restored with that value (%d inputs interpreted: 256 values x 2 contexts per receiver)", b.desc, cases[bi]), bads[bi])
+	}
 
-// c07Sweep evaluates all 256 values of root; returns "" if the nil-error
-// return is reachable exactly for valid values.
-func c07Sweep(fn *ssa.Function, root ssa.Value, valid func(int64) bool, bindExtra func(*penv), others []ssa.Value) string {
-	accept := retTargets(fn, func(r *ssa.Return) bool {
-		return len(r.Results) == 1 && errNilness(r.Results[0], r.Block(), 0) != neverNil
-	})
-	if len(accept) == 0 {
-		return "no accepting return found"
+	// ---- no other integer field depends on the input ---------------------
+	{
+		var names []string
+		for fld := range others {
+			names = append(names, fld)
+		}
+		sort.Strings(names)
+		bad := ""
+		for _, fld := range names {
+			for _, s := range others[fld] {
+				if bad == "" && (s.unknown || len(s.vals) > 1) {
+					bad = "integer field " + fld + " is restored from the input without a range specification in the checker table"
+				}
+			}
+		}
+		c.check(bad == "", "C07.untabled-field", name+" other integer fields", fn,
+			"no integer field of the receiver other than the range-checked ones is stored with an input-dependent value", bad)
 	}
-	for d := int64(0); d < 256; d++ {
-		e := newEnv()
-		e.bind(root, d)
-		if bindExtra != nil {
-			bindExtra(e)
-		}
-		got := anyReachable(fn, accept, e.cuts(fn)) != nil
-		if got && !valid(d) {
-			return fmt.Sprintf("byte value %d is outside the valid range but the nil-error return is still reachable (no rejecting comparison)", d)
-		}
-		if !got && valid(d) {
-			return fmt.Sprintf("byte value %d is valid but the nil-error return is unreachable (over-strict check breaks Marshal/Unmarshal transparency)", d)
-		}
-	}
-	return ""
-}
-
-type fieldSpec struct {
-	field string
-	valid func(d int64) bool
-	desc  string
-}
-
-func c07Fields(c *Ctx, pk string, fn *ssa.Function, typ string, specs []fieldSpec, bindExtra func(*penv)) {
-	name := pk + "." + fnName(fn)
-	// all int-typed receiver fields stored from input bytes
-	stored := map[string]*ssa.Store{}
-	allInstrs(fn, func(in ssa.Instruction) {
-		st, ok := in.(*ssa.Store)
-		if !ok {
-			return
-		}
-		fa, ok := st.Addr.(*ssa.FieldAddr)
-		if !ok || typeName(fa.X.Type()) != typ {
-			return
-		}
-		if _, _, isInt := intBits(st.Val.Type()); !isInt {
-			return
-		}
-		if byteRoot(st.Val) == nil {
-			return
-		}
-		s := derefStruct(fa.X.Type())
-		stored[s.Field(fa.Field).Name()] = st
-	})
-	known := map[string]bool{}
-	for _, sp := range specs {
-		known[sp.field] = true
-		st := stored[sp.field]
-		if st == nil {
-			c.fail("C07.range", name+" field "+sp.field, fn, "no store of an input byte into this field found (rule anchor lost)")
-			continue
-		}
-		root := byteRoot(st.Val)
-		bad := c07Sweep(fn, root, sp.valid, bindExtra, nil)
-		c.check(bad == "", "C07.range", name+" field "+sp.field, st,
-			"nil-error return reachable exactly for byte values "+sp.desc+" (256 values evaluated)", bad)
-	}
-	for f, st := range stored {
-		if !known[f] {
-			c.fail("C07.untabled-field", name+" field "+f, st, "integer field restored from an input byte without a range specification in the checker table")
-		}
-	}
-	// length guard: accept unreachable unless len(b) == marshaledSize
-	ms, ok := pkgConstInt(c, pk, "marshaledSize")
-	if !ok {
-		c.fail("anchor", pk+".marshaledSize", fn, "constant not found")
-		return
-	}
-	accept := retTargets(fn, func(r *ssa.Return) bool {
-		return len(r.Results) == 1 && errNilness(r.Results[0], r.Block(), 0) != neverNil
-	})
-	for _, n := range []int64{0, 1, ms - 1, ms + 1, ms + 100} {
-		e := newEnv()
-		e.bindLen(fn, fn.Params[1], n)
-		if r := anyReachable(fn, accept, e.cuts(fn)); r != nil {
-			c.fail("C07.length", fmt.Sprintf("%s len=%d", name, n), r, fmt.Sprintf("input of length %d (marshaledSize is %d) can reach the nil-error return", n, ms))
-			return
-		}
-	}
-	e := newEnv()
-	e.bindLen(fn, fn.Params[1], ms)
-	if bindExtra != nil {
-		bindExtra(e)
-	}
-	c.check(anyReachable(fn, accept, e.cuts(fn)) != nil, "C07.length", name+" length guard", fn,
-		fmt.Sprintf("only len(b) == marshaledSize (%d) reaches the nil-error return", ms),
-		"an input of exactly marshaledSize bytes cannot reach the nil-error return")
 }
